@@ -2,6 +2,7 @@
 C41 — TLS fingerprint pinning accepts exactly the pinned certificate.
 -/
 import MtxVerif.Model.C41
+import MtxVerif.Lemmas.C41Sites
 
 namespace MtxVerif.C41
 
